@@ -74,6 +74,9 @@ enum Scenario {
     Tally { threads: usize, ops: Vec<Vec<u8>>, pb: Option<usize> },
     #[serde(rename = "shim")]
     Shim { script: String, pb: Option<usize> },
+    /// Concurrent registration: `pushes[t]` nodes are pushed onto one entry list by thread t.
+    #[serde(rename = "entrylist")]
+    EntryList { pushes: Vec<usize>, pb: Option<usize> },
 }
 
 struct SyncCell<T>(loom::cell::UnsafeCell<T>);
@@ -313,6 +316,54 @@ fn tally_scenario(threads: usize, ops: &[Vec<u8>]) {
     outcome(0);
 }
 
+/// C12: every node pushed onto the real `EntryList` (the lock-free list behind `BENCH_ENTRIES` /
+/// `GROUP_ENTRIES`) by any thread is found exactly once afterwards, whatever the interleaving.
+fn entrylist_scenario(pushes: &[usize]) {
+    use divan::__private::EntryList;
+    static IDS: [usize; 16] = [0, 1, 2, 3, 4, 5, 6, 7, 8, 9, 10, 11, 12, 13, 14, 15];
+    let root: &'static EntryList<usize> = Box::leak(Box::new(divan::verif::entry_list_root::<usize>()));
+    let mut next = 0usize;
+    let mut work: Vec<Vec<&'static EntryList<usize>>> = Vec::new();
+    for &n in pushes {
+        let mut mine = Vec::new();
+        for _ in 0..n {
+            mine.push(&*Box::leak(Box::new(EntryList::new(&IDS[next]))));
+            next += 1;
+        }
+        work.push(mine);
+    }
+    // The facade creates a node's loom atomic at its first access; loom requires the creation to happen
+    // before every other access, so every node is touched here, before any thread is spawned.
+    let _ = root.iter().count();
+    for node in work.iter().flatten() {
+        let _ = node.iter().count();
+    }
+    let mut handles = Vec::new();
+    let first = work.remove(0);
+    for mine in work {
+        handles.push(loom::thread::spawn(move || {
+            for node in mine {
+                root.push(node);
+            }
+        }));
+    }
+    for node in first {
+        root.push(node);
+    }
+    for h in handles {
+        h.join().unwrap();
+    }
+    let mut seen: Vec<usize> = root.iter().copied().collect();
+    let order = seen.clone();
+    seen.sort_unstable();
+    let want: Vec<usize> = (0..next).collect();
+    if seen != want {
+        oracle!("C12", "registration-lost-or-doubled", "nodes pushed by {} threads ({pushes:?} each): the list yields {order:?}, every one of {want:?} must be found exactly once", pushes.len());
+    }
+    TRANSITIONS.fetch_add(next as u64 * 3, SeqCst);
+    outcome(hash_of(&format!("{order:?}")));
+}
+
 mod shimtest;
 
 fn main() {
@@ -368,7 +419,7 @@ fn main() {
     }
 
     let pb = match &scenario {
-        Scenario::Pool { pb, .. } | Scenario::Loop { pb, .. } | Scenario::Tally { pb, .. } | Scenario::Shim { pb, .. } => *pb,
+        Scenario::Pool { pb, .. } | Scenario::Loop { pb, .. } | Scenario::Tally { pb, .. } | Scenario::Shim { pb, .. } | Scenario::EntryList { pb, .. } => *pb,
     };
     let mut builder = loom::model::Builder::new();
     builder.preemption_bound = pb;
@@ -388,6 +439,7 @@ fn main() {
             Scenario::Loop { case, prop, .. } => loop_scenario(case, prop.as_deref()),
             Scenario::Tally { threads, ops, .. } => tally_scenario(*threads, ops),
             Scenario::Shim { script, .. } => shimtest::run(script),
+            Scenario::EntryList { pushes, .. } => entrylist_scenario(pushes),
         }
     });
 
